@@ -23,7 +23,7 @@ COMPONENTS = {"real": ["whole Deep agent incl. Deep.start/shutdown, TriggerHandl
                        "TaskHandler.flush, plugin loader"],
               "stub": ["threads/clock/executor", "sys.settrace/threading.settrace seam (wrapping, not replacing)",
                        "gRPC channel + DEEP service", "recording plugins"]}
-ASSUMPTIONS = ["start after shutdown is not specified by the property and not exercised",
+ASSUMPTIONS = [
                "plugin failures are Exception subclasses"]
 TEXT = ("Seeded exploration of lifecycle histories with fault injection at shutdown; hook equality is observed on the "
         "real sys/threading hooks, liveness of the poll timer on simulated time, and 'no further actions' through "
@@ -45,7 +45,12 @@ def looper(n, pause, out):
 
 def generate(seed, tier):
     r = random.Random(seed)
+    if r.random() < 0.05:
+        # two agents in one process, one after the other, each built the way deep.start() builds them
+        return {"arm": "two-agents", "no_trace": r.random() < 0.3, "knobs": common.draw_knobs(r, stall_p=0.0)}
     s = _generate(r)
+    # start / shutdown / start / shutdown: the sequence goes on after the first shutdown
+    s["restart"] = r.random() < 0.25
     if r.random() < 0.08:
         # a poll answer that arrives while shutdown is draining deliveries which outlast the drain's patience: whatever
         # that answer sets in motion must not take effect after shutdown has returned
@@ -65,6 +70,10 @@ def _generate(r):
 
 
 def shrink_candidates(s):
+    if s.get("arm") == "two-agents":
+        return
+    if s.get("restart"):
+        yield dict(s, restart=False)
     for key, simple in (("pre_sys", False), ("pre_thread", False), ("start_twice", False), ("shutdown_twice", False),
                         ("poll_errors", False), ("bg_threads", 0), ("hits_before", 0), ("plugin_shutdown_raises", []),
                         ("pending", []), ("poll_in_flight", None)):
@@ -72,7 +81,57 @@ def shrink_candidates(s):
             yield dict(s, **{key: simple})
 
 
+def _two_agents(s, ch):
+    viol = []
+
+    def main(k):
+        from deep.config.config_service import ConfigService
+        from deep.api.deep import Deep
+        w = world.World(k, cfg={"NO_TRACE": True} if s["no_trace"] else {}, python_plugin=False)   # service, sink, seams
+        svc = w.service
+        svc.set_config([svc.make_tp("t1", "nowhere.py", 1, {}, [])], "h-one")
+        want_sys, want_thr = sys.gettrace(), _rt.gettrace()
+        first_hash = []
+        for n in (1, 2):
+            polls0 = len(svc.polls)
+            agent = Deep(ConfigService(dict(w.custom)))
+            try:
+                agent.start()
+            except kernel.SimKilled:
+                raise
+            except BaseException as e:  # noqa
+                viol.append(V("start-raised:%s:agent-%d" % (type(e).__name__, n), repr(e)))
+                break
+            k.settle()
+            mine = svc.polls[polls0:]
+            first_hash.append(mine[0][2] if mine else None)
+            installed = len(agent.trigger_handler._tp_config)
+            if n == 2 and (first_hash[-1] not in ("", None) or installed != 1):
+                viol.append(V("second-agent-inherits-the-first-ones-configuration-state", "its first poll reported hash %r "
+                              "(a new agent has none), it has %d tracepoints installed (the service has 1)" % (
+                                  first_hash[-1], installed)))
+            try:
+                agent.shutdown()
+            except kernel.SimKilled:
+                raise
+            except BaseException as e:  # noqa
+                viol.append(V("shutdown-raised:%s:agent-%d" % (type(e).__name__, n), repr(e)))
+            hs, ht = shims.TraceSeam.unwrap(sys.gettrace()), shims.TraceSeam.unwrap(_rt.gettrace())
+            if hs is not shims.TraceSeam.unwrap(want_sys) or ht is not shims.TraceSeam.unwrap(want_thr):
+                viol.append(V("hooks-not-restored:agent-%d" % n, "%r %r" % (hs, ht)))
+            k.settle()
+        k.fault("second_agent_in_process")
+        sys.settrace(None)
+        _rt.settrace(None)
+        w.close()
+
+    k = common.run_in_kernel(ch, s["knobs"], main)
+    return common.result(k, viol, key=repr(("two-agents", s["no_trace"], k.order_sig.hexdigest()[:6])))
+
+
 def execute(s, ch):
+    if s.get("arm") == "two-agents":
+        return _two_agents(s, ch)
     viol = []
     info = {"nontrivial": False}
 
@@ -274,6 +333,34 @@ def execute(s, ch):
         if alive:
             viol.append(V("timer-alive-after-shutdown", str(alive)))
         check_hooks("35s-after-shutdown", False)
+        if s.get("restart"):
+            # ... and the sequence goes on: start again (the service has something new for it), act, shut down again
+            k.fault("restart_after_shutdown")
+            w.service.poll_faults = None
+            w.service.send_faults = None
+            w.service.set_config([w.service.make_tp("again", "nowhere.py", 1, {}, [])], "h-again")
+            try:
+                w.deep.start()
+            except kernel.SimKilled:
+                raise
+            except BaseException as e:  # noqa
+                viol.append(V("restart-raised:%s" % type(e).__name__, "start after shutdown: %r; started=%s" % (e, w.deep.started)))
+            k.settle()
+            check_hooks("after-restart", not s["no_trace"])
+            if not s["no_trace"] and w.deep.started:
+                w.handler.new_config([build_trigger("tpL", p.basename, 2, args, [], metrics)])
+                mark_r = (len(w.pushed), len(w.sink.calls))
+                g["looper"](2, lambda: None, [])
+                if (len(w.pushed), len([c for c in w.sink.calls[mark_r[1]:] if c[2] in ("log_tracepoint", "counter", "create_span")])) == (mark_r[0], 0):
+                    viol.append(V("restarted-agent-does-not-act", "2 hits of an installed %s tracepoint after the restart: nothing" % s["kind"]))
+            try:
+                w.deep.shutdown()
+            except kernel.SimKilled:
+                raise
+            except BaseException as e:  # noqa
+                viol.append(V("shutdown-raised:%s:after-restart" % type(e).__name__, repr(e)))
+            check_hooks("after-restart-shutdown", False)
+            k.settle()
         info["nontrivial"] = bool(s["pre_sys"] or s["pre_thread"] or s["pending"] or s["plugin_shutdown_raises"]
                                   or s["bg_threads"] or s["poll_errors"] or s.get("poll_in_flight"))
         sys.settrace(None)
